@@ -4,7 +4,7 @@ CHECKS = {
         level="exploration",
         technique="runtime monitor: exact float64 oracle on every from_float_value/to_float call over bit-pattern generated float32 tensors",
         design_ref="DESIGN.md section 4 C11",
-        text="Every generated tensor (12 families incl. all-exponent bit patterns, sub-normal, near-overflow, ties at half buckets, zero/constant columns; rank 1-3; int8/int16/bfloat16/float32; with and without diagonal extraction) is quantised and dequantised by the real code and compared with exact float64 arithmetic: half-bucket bound, integer range, exact zeros/diagonal, idempotent re-quantisation over 3 rounds. Sampling, not proof; thousands of distinct tensors per run.",
+        text="Every generated tensor (12 families incl. all-exponent bit patterns, sub-normal, near-overflow, ties at half buckets, zero/constant columns; rank 1-3; int8/int16/bfloat16/float32; with and without diagonal extraction) is quantised and dequantised by the real code and compared with exact float64 arithmetic: half-bucket bound, integer range, exact zeros/diagonal, idempotent re-quantisation over 3 rounds (float storage is exercised with the extract_diagonal flag too). In situ: quantised state of the real pmap optimizer must be a fixed point of quantize(dequantize(.)), and a stored preconditioner triple must be the previous one or what from_float_value returned in that step - also across a gradient spike that overflows one leaf's statistics (rejected non-finite roots). Sampling, not proof; thousands of distinct tensors per run.",
         note="Trusted: NumPy float64 arithmetic; rounding slack 8*N*2^-24 buckets. The sub-normal-bucket flush (XLA-CPU FTZ) is a recorded known finding.",
     ),
 }
@@ -27,14 +27,14 @@ CHECKS.update({
         level="exploration",
         technique="runtime monitor: dense-matrix oracle for pack/unpack (exhaustive over (d,r)), packed application and packed root (float64 eigh reference with spectral-gap guard)",
         design_ref="DESIGN.md section 4 C10",
-        text="pack/unpack are checked to be mutually inverse bitwise for every admissible (d,r), |r|+2<d<=12 (20 thorough), both signs, x64 on and off; Preconditioner.preconditioned_grad with packed preconditioners is compared with tensordot by the dense c(I-VV')+V diag(e)V' on every axis of rank 1..3 gradients (has_zeros => identity); _low_rank_root is compared as a dense matrix with the exact float64 truncated root (top or bottom |r| directions, mean of the rest over unpadded dims) with padding, relative/absolute ridge, p 1..8; in-situ: the packed roots stored by the real optimizer (compression_rank +-1, +-2, statistic sizes 3..9) against the truncated root of the statistics stored in the same state.",
+        text="pack/unpack are checked to be mutually inverse bitwise for every admissible (d,r), |r|+2<d<=12 (20 thorough), both signs, x64 on and off; Preconditioner.preconditioned_grad with packed preconditioners is compared with tensordot by the dense c(I-VV')+V diag(e)V' on every axis of rank 1..3 gradients (has_zeros => identity; complement weight exactly 0 with the flag unset => V diag(e) V'); _low_rank_root is compared as a dense matrix with the exact float64 truncated root (top or bottom |r| directions, mean of the rest over unpadded dims) with padding, relative/absolute ridge, p 1..8; in-situ: the packed roots stored by the real optimizer (compression_rank +-1, +-2, statistic sizes 3..9) against the truncated root of the statistics stored in the same state.",
         note="Trusted: NumPy float64 eigh. Cases without a 1e-3 relative spectral gap at the cut are skipped (counted).",
     ),
     "C12": dict(
         level="exploration",
         technique="runtime monitor: exact float64 per-entry second-moment accumulator run in lock-step with the real sm3 transformation",
         design_ref="DESIGN.md section 4 C12",
-        text="After every public update the accumulators in state are compared with an exact float64 decayed sum of squared (float32) gradients: min over a coordinate's accumulators >= nu, monotone for beta2=1, recovered pre-momentum step <= AdaGrad/RMSProp step, equality for rank-1. 640 (config, history) cases quick over ranks 1-4 incl. unit dims, 7 history families, beta1/beta2/weight decay/normalisation.",
+        text="After every public update the accumulators in state are compared with an exact float64 decayed sum of squared (float32) gradients: min over a coordinate's accumulators >= nu, monotone for beta2=1, recovered pre-momentum step <= AdaGrad/RMSProp step, equality for rank-1. 640 (config, history) cases quick over ranks 1-4 incl. unit dims, 7 history families, beta1/beta2/weight decay/normalisation; ~5% run 600 steps with bfloat16 parameters and gradients (accumulator clauses, 2^-5 slack for bfloat16 term rounding).",
         note="Relative slack 1e-5 (float32 state). The exact SM3-II recurrence is deliberately not asserted (only the cover property the statement makes).",
     ),
     "C16": dict(
@@ -57,14 +57,14 @@ CHECKS.update({
         level="exploration",
         technique="runtime monitor: step-wise conformance of every observed optimizer transition to an independent float64 reference transition model with running floating-point error bounds",
         design_ref="DESIGN.md section 4 C02, section 2.4",
-        text="Every transition (state_t, grads_t) -> (update_t, state_t+1) of the real distributed_shampoo (replicated-jit, pmap with int16/int8 quantised state, sharded on a 2-device mesh; x64 on, float32 trees) is checked stage by stage against a NumPy float64 model written from the documentation and applied to the real pre-state: statistics recurrence (entrywise gamma_k bound), acceptance gate and residual of the stored root against the stored statistics, update, both momenta, grafting accumulator, count. ~250 random (config, tree, history, mode) cases x 6 steps in the quick tier (~4000 x 6-12 thorough).",
+        text="Every transition (state_t, grads_t) -> (update_t, state_t+1) of the real distributed_shampoo (replicated-jit, pmap with int16/int8 quantised state, sharded on a 2-device mesh; x64 on, float32 trees) is checked stage by stage against a NumPy float64 model written from the documentation and applied to the real pre-state: statistics recurrence (entrywise gamma_k bound), acceptance gate and residual of the stored root against the stored statistics, update, both momenta, grafting accumulator, count. ~250 random (config, tree, history, mode) cases x 6 steps in the quick tier (~4000 x 6-12 thorough); one case in five runs with generate_training_metrics=False (errors unobservable: a replaced root is held to the threshold itself, for any of the six possible ridge escalations).",
         note="Trusted: the reference model (vmon/refmodels/ds_ref.py) as the reading of the documentation; NumPy float64. Differences below the error bound (e.g. the 1e-25 guard) are invisible; compression/FD/LOBPCG representations are covered by C05/C09/C10 instead.",
     ),
     "C03": dict(
         level="fault_enumeration",
         technique="runtime monitor over fault-injected histories: offline acceptance-gate checker on bitwise state diffs and reported errors, all fault words up to length T enumerated per configuration",
         design_ref="DESIGN.md section 4 C03",
-        text="For each of 192 configurations (threshold x epsilon incl. 0 x Newton/eigh x interval x jit/pmap-quantised/sharded x x64 on/off) plus 72 configurations with other statistic sizes (all 1x1; one 64x64; a padded 1x1 among larger ones), 24 with a 1600-entry leaf, 40 with compressed / frequent-directions / LOBPCG-deflated (top-1; top-2 after one iteration) / warm-started roots and 12 with normalised grafting, every word of length 3 (thorough: 5, <=3 faults) over {normal, zero, tiny, huge, overflow, NaN, Inf} gradients is replayed through the real compiled update; after every step each stored preconditioner must be bit-identical to before or be installed on a refresh step with a finite reported error strictly below the threshold, must be finite, and moderate histories must give finite updates; on fault-free prefixes an installed float64 root is re-verified with the C01 residual oracle against the statistics stored in the same state ('verified' is not taken on trust). 116k words / 135k steps quick, ~185k NaN rejections and ~17k threshold rejections observed.",
+        text="For each of 192 configurations (threshold x epsilon incl. 0 x Newton/eigh x interval x jit/pmap-quantised/sharded x x64 on/off) plus 72 configurations with other statistic sizes (all 1x1; one 64x64; a padded 1x1 among larger ones), 24 with a 1600-entry leaf, 48 with compressed / frequent-directions (with and without reset_preconditioner) / LOBPCG-deflated (top-1; top-2 after one iteration) / warm-started roots, 12 with normalised grafting and 12 without training metrics, every word of length 3 (thorough: 5, <=3 faults) over {normal, zero, tiny, huge, overflow, NaN, Inf} gradients is replayed through the real compiled update; after every step each stored preconditioner must be bit-identical to before or be installed on a refresh step with a finite reported error strictly below the threshold, must be finite, and moderate histories must give finite updates; on every moderate word (no overflow/NaN/Inf letter) an installed float64 root is re-verified with the C01 residual oracle against the statistics stored in the same state ('verified' is not taken on trust). 123k words / 143k steps quick (~10k installed roots re-verified), ~185k NaN rejections and ~17k threshold rejections observed.",
         note="Exhaustive over the stated alphabet/length/configuration grid only; nine fixed trees. Four leaks (1x1 statistics, -inf error on 64x64 statistics, NaN frequent-directions sketch accepted, overflowing graft-norm transplant) were repaired in /repo.",
     ),
 })
@@ -73,7 +73,7 @@ CHECKS.update({
         level="exploration",
         technique="runtime monitor: offline checker of recorded state-diff histories against an explicit schedule automaton (allowed/required change sets), plus residual freshness oracle and reference warm-up update",
         design_ref="DESIGN.md section 4 C04",
-        text="Successive optimizer states are diffed bitwise (statistics, preconditioners, diagnostics, count) at every step and the observed change set is compared with the automaton computed from (statistics interval, preconditioner interval incl. the lr-scheduled formula, start step): nothing may change off schedule, statistics must change on statistics steps, preconditioners must change on refresh steps when statistics moved and the error is accepted, the stored root must invert the statistics stored in the same state (stale roots would fail: counted), count advances by one, updates before/after the start step equal the reference grafting / preconditioned update. Grid walked completely: s,p in 1..3 (thorough 1..5) x start x {jit, pmap-quantised, sharded} + lr-scheduled intervals + Tearfree Shampoo (stat/precond freq) + Sketchy (update_freq) + grafting counter.",
+        text="Successive optimizer states are diffed bitwise (statistics, preconditioners, diagnostics, count) at every step and the observed change set is compared with the automaton computed from (statistics interval, preconditioner interval incl. the lr-scheduled formula, start step): nothing may change off schedule, statistics must change on statistics steps, preconditioners must change on refresh steps when statistics moved and the error is accepted, the stored root must invert the statistics stored in the same state (stale roots would fail: counted), count advances by one, updates before/after the start step equal the reference grafting / preconditioned update (coupled weight decay 0.01 under Nesterov momentum). Grid walked completely: s,p in 1..3 (thorough 1..5) x start x {jit, pmap-quantised, sharded} + lr-scheduled intervals + Tearfree Shampoo (stat/precond freq) + Sketchy (update_freq) + grafting counter.",
         note="Grid bounds as stated in the evidence rule; one fixed two-leaf tree per driver.",
     ),
     "C05": dict(
@@ -89,35 +89,35 @@ CHECKS.update({
         level="exploration",
         technique="runtime monitor: tree-structure/shape/dtype signature fixed-point checker over generated option combinations, exception classifier (explicit rejection vs internal error), lax.scan carry as a real consumer, sharded declaration cross-check",
         design_ref="DESIGN.md section 4 C07",
-        text="Random combinations of every constructor argument of distributed_shampoo (jit / pmap / sharded), sm3 and tearfree over trees with ranks 0-4 and unit dims are constructed, initialised and updated 4 times: signatures of state (treedef equality + leaf shapes/dtypes) must be a fixed point, updates must mirror the parameters, the step must be accepted as a lax.scan carry, any exception must be an explicit explanatory rejection raised on purpose, and in sharded mode init_fn / shape_and_dtype_fn / pspec_fn must describe the same tree with equal shapes and dtypes. 462 configurations quick (~6300 thorough), incl. forced x64+LOBPCG cases and Tearfree trees on the boundary of the blocking validation (every dimension 1x or 2x the block size).",
+        text="Random combinations of every constructor argument of distributed_shampoo (jit / pmap / sharded), sm3 and tearfree over trees with ranks 0-4 and unit dims are constructed, initialised and updated 4 times: signatures of state (treedef equality + leaf shapes/dtypes) must be a fixed point, updates must mirror the parameters, the step must be accepted as a lax.scan carry, any exception must be an explicit explanatory rejection raised on purpose, and in sharded mode init_fn / shape_and_dtype_fn / pspec_fn must describe the same tree with equal shapes and dtypes. 462 configurations quick (~6300 thorough), incl. forced x64+LOBPCG cases, pmap over one and two devices, and Tearfree trees on the boundary of the blocking validation (every dimension 1x or 2x the block size).",
         note="The rejection rule is deliberately lenient (documented in dsharness.classify_exception; an assertion message counts as explanatory only with >= 3 alphabetic words). 11 defects found by this monitor were repaired in /repo (see known_findings.json, status=fixed).",
     ),
     "C08": dict(
         level="exploration",
         technique="runtime monitor: metamorphic oracle (blocked tensor vs its blocks as separate leaves; leaf alone vs with companions) on real updates",
         design_ref="DESIGN.md section 4 C08",
-        text="For generated layouts (1 or 2 blocked axes, ragged last blocks) and per-block gradient scales spanning 1e-6..1e6 the real update of the blocked tensor is compared block by block with the updates obtained when the same blocks are separate leaves (equal without grafting, parallel with one factor when grafting is on), and with the update of the same leaf when companion leaves of other shapes/scales are added; and with the same block optimised alone in its own optimizer; distributed_shampoo (x64 on/off, Newton/eigh, graft NONE/SGD/RMSProp, jit / pmap-quantised / sharded) and Tearfree Shampoo.",
+        text="For generated layouts (1 or 2 blocked axes, ragged last blocks) and per-block gradient scales spanning 1e-6..1e6 the real update of the blocked tensor is compared block by block with the updates obtained when the same blocks are separate leaves (equal without grafting, parallel with one factor when grafting is on), and with the update of the same leaf when companion leaves of other shapes/scales are added (sorting before or after it, of another rank, with larger statistics, or skipping preconditioning altogether); and with the same block optimised alone in its own optimizer; distributed_shampoo (x64 on/off, Newton/eigh, graft NONE/SGD/RMSProp, jit / pmap-quantised / 2-device pmap / sharded) and Tearfree Shampoo.",
         note="Relative tolerance 2e-5 (float32 reduction order), 1e-9 for Tearfree under x64; bitwise-equal counts reported. distributed_shampoo cases use a relative ridge (statistics must resolve the ridge in float32, DESIGN 2.4 rule 4).",
     ),
     "C09": dict(
         level="exploration",
         technique="runtime monitor: exact-covariance shadow state and PSD-order bracket / escaped-mass recurrence oracle after every frequent-directions step, four drivers",
         design_ref="DESIGN.md section 4 C09",
-        text="The monitor keeps the exact b-discounted covariance (plus the ridge the configuration adds on the sketch span) and after every FD step of (A) _fd_update_root fed by frequent_directions_update, (B) Tearfree Sketchy via its public transformation, (C) the OCO sketches, (D) the packed sketches inside distributed_shampoo state (jit and 2-device pmap), checks orthonormal-or-zero directions, l,t >= 0, S <= C <= S+tI, t' = b t + rho with rho recomputed independently, zero-gradient and low-rank exactness, stored inverse roots = (l+t+eps)^(-1/p).",
+        text="The monitor keeps the exact b-discounted covariance (plus the ridge the configuration adds on the sketch span) and after every FD step of (A) _fd_update_root fed by frequent_directions_update, (B) Tearfree Sketchy via its public transformation (incl. ekfac_svd with update_freq 2-3, where a trial FD step runs every optimizer step), (C) the OCO sketches, (D) the packed sketches inside distributed_shampoo state (jit, 2-device pmap, sharded; with and without gradient averaging, where the sketch must absorb the documented window mean), checks orthonormal-or-zero directions, l,t >= 0, S <= C <= S+tI, t' = b t + rho with rho recomputed independently, zero-gradient and low-rank exactness, stored inverse roots = (l+t+eps)^(-1/p).",
         note="Driver D on statistics smaller than the batch maximum reproduces a recorded known finding (packed sketch truncated). PSD-order tolerance 1e-10 (float64) / 2e-4 (float32) of ||C||.",
     ),
     "C13": dict(
         level="exploration",
         technique="runtime monitor: cross-run equality oracle over device counts (pmap on D forced host devices, sharded under a D-device mesh) against the single-device run",
         design_ref="DESIGN.md section 4 C13",
-        text="For trees whose number of statistics N covers every residue modulo D, the real update is run under jax.pmap on D = 1..8 devices (full / int16-quantised / compressed / eigh / frequent-directions / with an always-rejected leaf) and under a D-device mesh in sharded mode; every device's updates and complete final state must equal device 0's and the D=1 run (bitwise in most leaves; 2e-5 relative fallback; rounding-noise diagnostics compared absolutely or not at all).",
+        text="For trees whose number of statistics N covers every residue modulo D, the real update is run under jax.pmap on D = 1..8 devices (full / int16-quantised / compressed / eigh / frequent-directions / with an always-rejected leaf, with and without training metrics) and under a D-device mesh in sharded mode; every device's updates and complete final state must equal device 0's and the D=1 run (bitwise in most leaves; 2e-5 relative fallback; rounding-noise diagnostics compared absolutely or not at all).",
         note="Forced host-platform CPU devices; D exhaustive in 1..8; N in {1,2,3,5,7,12} quick, 14 values up to 29 thorough.",
     ),
     "C14": dict(
         level="fault_enumeration",
         technique="runtime monitor over crash points: every interruption step is resumed in a fresh interpreter from flax-serialized state and compared bitwise with the uninterrupted run",
         design_ref="DESIGN.md section 4 C14",
-        text="For 17 optimizer variants (distributed_shampoo full/eigh/pmap-quantised/compressed +-/FD/RMSProp+schedule/sharded/AdaGrad, sm3 with and without momentum, Tearfree Shampoo/Sketchy/RMSProp graft, and three un-jitted variants where Python-side hidden state would act at every call) x 2 seeds, state_k is serialized after every k in 0..T and restored into a freshly constructed optimizer in a new process; all later updates and the final state must be bit-identical and the restored tree must have the template's structure. 238 fresh-process resumes quick (~1100 thorough).",
+        text="For 22 optimizer variants (distributed_shampoo full/eigh/pmap-quantised/compressed +-/FD/FD with gradient averaging/FD diagnostics next to a skipped parameter/RMSProp+schedule/sharded/sharded multi-block/AdaGrad/bfloat16 parameters with quantised state, sm3 with and without momentum, Tearfree Shampoo/Sketchy/RMSProp graft, and three un-jitted variants where Python-side hidden state would act at every call) x 2 seeds, state_k is serialized after every k in 0..T and restored into a freshly constructed optimizer in a new process; all later updates and the final state must be bit-identical and the restored tree must have the template's structure. 308 fresh-process resumes quick (~1400 thorough). A variant the constructor rejects makes the run inconclusive.",
         note="Same machine and XLA build; serialization = flax.serialization.to_bytes/from_bytes.",
     ),
     "C15": dict(
